@@ -361,7 +361,30 @@ impl KotoVm {
         self.call_and_run_function(Some(instance), function, args.into())
     }
 
+    // Runs a host-initiated operation, making sure that the registers that it has pushed are
+    // removed again when the operation returns early with an error.
+    fn with_register_cleanup<T>(
+        &mut self,
+        operation: impl FnOnce(&mut Self) -> Result<T>,
+    ) -> Result<T> {
+        let register_count = self.registers.len();
+        let result = operation(self);
+        if result.is_err() {
+            self.registers.truncate(register_count);
+        }
+        result
+    }
+
     fn call_and_run_function(
+        &mut self,
+        instance: Option<KValue>,
+        function: KValue,
+        args: CallArgs,
+    ) -> Result<KValue> {
+        self.with_register_cleanup(|vm| vm.call_and_run_function_inner(instance, function, args))
+    }
+
+    fn call_and_run_function_inner(
         &mut self,
         instance: Option<KValue>,
         function: KValue,
@@ -453,6 +476,10 @@ impl KotoVm {
 
     /// Provides the result of running a unary operation on a KValue
     pub fn run_unary_op(&mut self, op: UnaryOp, value: KValue) -> Result<KValue> {
+        self.with_register_cleanup(|vm| vm.run_unary_op_inner(op, value))
+    }
+
+    fn run_unary_op_inner(&mut self, op: UnaryOp, value: KValue) -> Result<KValue> {
         use UnaryOp::*;
 
         let old_frame_count = self.call_stack.len();
@@ -492,6 +519,10 @@ impl KotoVm {
 
     /// Provides the result of running a binary operation on a pair of Values
     pub fn run_binary_op(&mut self, op: BinaryOp, lhs: KValue, rhs: KValue) -> Result<KValue> {
+        self.with_register_cleanup(|vm| vm.run_binary_op_inner(op, lhs, rhs))
+    }
+
+    fn run_binary_op_inner(&mut self, op: BinaryOp, lhs: KValue, rhs: KValue) -> Result<KValue> {
         let old_frame_count = self.call_stack.len();
 
         let result_register = self.next_register();
@@ -569,6 +600,15 @@ impl KotoVm {
         container: KValue,
         read_arg: KValue,
     ) -> Result<KValue> {
+        self.with_register_cleanup(|vm| vm.run_read_op_inner(op, container, read_arg))
+    }
+
+    fn run_read_op_inner(
+        &mut self,
+        op: ReadOp,
+        container: KValue,
+        read_arg: KValue,
+    ) -> Result<KValue> {
         let old_frame_count = self.call_stack.len();
 
         let result_register = self.next_register();
@@ -597,6 +637,18 @@ impl KotoVm {
 
     /// Provides the result of running a write operation (i.e. via access or index)
     pub fn run_write_op(
+        &mut self,
+        op: WriteOp,
+        container: KValue,
+        write_arg: KValue,
+        write_value: KValue,
+    ) -> Result<KValue> {
+        self.with_register_cleanup(|vm| {
+            vm.run_write_op_inner(op, container, write_arg, write_value)
+        })
+    }
+
+    fn run_write_op_inner(
         &mut self,
         op: WriteOp,
         container: KValue,
